@@ -193,8 +193,10 @@ def oracle (k : Nat) : Obs → List Ev → List SExp → Except String Obs
         if closedKnown then
           if after.isEmpty then oracle k { o with locs := o.locs.set w [] } es rs
           else .error "split-on-a-closed-market-kept-jobs"
-        else if after != loc.take after.length then .error "split-reordered-or-invented-jobs"
-        else oracle k { o with locs := o.locs.set w after, market := loc.drop after.length ++ o.market } es rs
+        -- conservation only: WHICH jobs a split keeps (today the front of the queue) is not part of C05
+        else match eraseAll? loc after with
+          | none => .error "split-invented-or-duplicated-jobs"
+          | some rest => oracle k { o with locs := o.locs.set w after, market := rest ++ o.market } es rs
     | .work w c fresh =>
       if fresh.any (o.created.contains ·) then .error "harness:token-reused"
       else
